@@ -1919,6 +1919,11 @@ func (p *balloons) allocMem(c cache.Container, mems idset.IDSet, types libmem.Ty
 	}
 
 	if err != nil {
+		if zone, ok := p.memAllocator.AssignedZone(c.GetID()); ok {
+			log.Error("allocMem: keeping %s, failed to reallocate memory for %s: %v",
+				zone, c.PrettyName(), err)
+			return zone
+		}
 		log.Error("allocMem: falling back to %s, failed to allocate memory for %s: %v",
 			nodes, c.PrettyName(), err)
 		return nodes
